@@ -6,7 +6,7 @@
 (* Contract: TopValue / ConfigFileUsed.  Code-shaped layer: NewRootConfig  *)
 (* (config/config.go:119-227) as the sequence                              *)
 (*   Defaults   koanf.Load(structs.Provider(defaults))              :143   *)
-(*   Locate     MOCKERY_CONFIG, else --config, else search          :152-172 *)
+(*   Locate     --config, else MOCKERY_CONFIG, else search          :152-172 *)
 (*   LoadEnv    env.ProviderWithValue("MOCKERY_")                   :175   *)
 (*   LoadFile   file.Provider(located file)                         :204   *)
 (*   LoadFlags  posflag.Provider(flags, ".", k): a flag overrides iff it   *)
@@ -18,6 +18,8 @@
 (* dir, template, ...).                                                    *)
 (***************************************************************************)
 EXTENDS Naturals, Sequences, FiniteSets, TLC, Json
+
+CONSTANT EnvBeforeFlag    \* TRUE re-creates the repaired defect D18 (MOCKERY_CONFIG consulted before --config)
 
 Params == {"log-level", "scalar", "config"}
 Sources == {"env", "file", "flag"}
@@ -45,9 +47,11 @@ Defaults == /\ pc = "defaults"
             /\ k' = [p \in {"log-level", "scalar"} |-> "default"]       \* `config` has no default entry
             /\ pc' = "locate" /\ UNCHANGED <<given, located>>
 
-\* config.go:152-172 -- the environment variable is consulted FIRST
+\* config.go:152-172 -- the flag, then the environment variable, then the upward search
 Locate == /\ pc = "locate"
-          /\ located' = IF "env" \in given["config"] THEN "env" ELSE IF "flag" \in given["config"] THEN "flag" ELSE "search"
+          /\ located' = IF EnvBeforeFlag
+                         THEN IF "env" \in given["config"] THEN "env" ELSE IF "flag" \in given["config"] THEN "flag" ELSE "search"
+                         ELSE IF "flag" \in given["config"] THEN "flag" ELSE IF "env" \in given["config"] THEN "env" ELSE "search"
           /\ pc' = "env" /\ UNCHANGED <<given, k>>
 
 Override(f, g) == [p \in DOMAIN f \cup DOMAIN g |-> IF p \in DOMAIN g THEN g[p] ELSE f[p]]
@@ -73,7 +77,7 @@ Spec == Init /\ [][Next]_vars
 -----------------------------------------------------------------------------
 \* INVARIANT (holds): the layered value of every parameter that is read from koanf
 LayeringOK == pc = "done" => \A p \in {"log-level", "scalar"} : k[p] = TopValue(given, p)
-\* INVARIANT (PREDICTED VIOLATION, replayed against the binary): the config file that is read
+\* INVARIANT (holds; violated with EnvBeforeFlag = TRUE): the config file that is read
 ConfigFileOK == pc = "done" => located = ConfigFileUsed(given)
 
 \* export: one replay case per combination of the sources naming a config file
